@@ -20,7 +20,7 @@ FOLLOW = {
     # F3 == TEXT[:2]: whatever the configuration says about b"aB" applies again (self-reproduction)
 }
 
-KINDS = ["plain", "flip", "dec1", "dec2", "dec3", "kids1", "kids2", "restate", "decsame"]
+KINDS = ["plain", "flip", "dec1", "dec2", "dec3", "kids1", "kids2", "restate", "decsame", "samelen"]
 
 
 def intervals(n):
@@ -47,6 +47,8 @@ def make_hit(kind, s, e, text, idx):
         return (t, F2, "d", s, e, (("k", b"x", "", 0, 1, ()), ("k", F3, "kd", 1, 3, (("kk", F1, "", 0, 2, ()),))))
     if kind == "restate":  # same type and value as the searched root, at offset 0 only meaningful when s == 0
         return ("", text, "", s, e, ())
+    if kind == "samelen":  # a real decoding without a label whose value is exactly as long as the covered text
+        return (t, bytes((c ^ 3) for c in cov), "", s, e, ()) if cov else None
     if kind == "decsame":  # decoded value equal to the covered text in another case -> counts as undecoded
         return (t, cov.lower(), "d", s, e, ()) if cov else None
     raise ValueError(kind)
@@ -105,7 +107,7 @@ def count_configs(n_text, n_hits):
 
 def random_config(r, max_text=40, max_hits=14, n_texts=6, self_repro=False):
     texts = []
-    alpha = b"aAbB cC.1"
+    alpha = b"aAbB cC.1" if r.random() < 0.8 else b"aAbB cC.1\xff\xfe\xe9\x80"
     for i in range(n_texts):
         n = r.randint(1, max_text if i == 0 else 12)
         texts.append(bytes(r.choice(alpha) for _ in range(n)))
@@ -146,8 +148,15 @@ def random_config(r, max_text=40, max_hits=14, n_texts=6, self_repro=False):
             typ = r.choice(["p", "q", "r", ""])
             if x < 0.45 and cov:
                 hit = (typ or "p", cov if r.random() < 0.7 else cov.swapcase(), r.choice(["", "o"]), s, e, ())
-            elif x < 0.75:
+            elif x < 0.70:
                 hit = (typ, r.choice(texts), "d", s, e, ())
+            elif x < 0.75 and cov:
+                y = r.random()
+                if y < 0.5:
+                    hit = (typ, bytes(c ^ 3 for c in cov), "", s, e, ())  # unlabelled decoding of the same length
+                else:
+                    stripped = bytes(c for c in cov if c < 0x80)
+                    hit = (typ, stripped or b"z", "", s, e, ())  # differs from the covered text only by dropped high bytes
             elif x < 0.85:
                 v = r.choice(texts) if r.random() < 0.5 else (cov or b"z")
                 hit = (typ, v, "", s, e, rand_kids(v, 0))
